@@ -3,7 +3,7 @@
 # usage: try_seed.sh <seeded dir> <tier> <check id> [<check id> ...]
 # prints one line per check: <dir> <id> rc=<exit code> <seconds>s
 set -u
-DIR="$1"; TIER="$2"; shift 2
+DIR="$(realpath "$1")"; TIER="$2"; shift 2
 cd /verif || exit 3
 if [ -n "$(git -C /repo status --porcelain --untracked-files=no)" ]; then echo "/repo has uncommitted changes; refusing"; exit 3; fi
 if ! git -C /repo apply "$DIR/patch.diff" 2>/dev/null; then
